@@ -163,6 +163,10 @@ class IngestSuite(Suite):
                     f["map"] = files[0]["map"]
                 case["shared_map"] = True
                 case["prior"] = rng.choice([0, 1, 2]) if nfiles == 3 else rng.choice([0, 1])
+            elif nfiles >= 2 and not remaps(fmt, desc) and rng.random() < 0.5:
+                # a run with two digestion parameter sets hands its two digest maps to EVERY method of the command line; a method that
+                # takes the proteins from the file ignores them and still reads all its files
+                case["maps_of_the_run"] = rng.choice([1, 2])
             yield case
 
     def _materialise(self, case):
@@ -191,6 +195,8 @@ class IngestSuite(Suite):
                     evidence.parse_evidence_files(paths[:case["prior"]], maps, ProteinScoringStrategy(case["desc"]), True)
                 except Exception:
                     pass
+        if case.get("maps_of_the_run"):
+            maps = [{"AAAAAAK": ["P9"]}, {"CCCCCCK": ["P8", "REV__P7"]}][:case["maps_of_the_run"]]
         try:
             pil = evidence.parse_evidence_files(paths, maps, st, True)
         except Exception as e:
